@@ -3,16 +3,22 @@ module verif/mc
 go 1.23
 
 require (
+	github.com/fasthttp/websocket v1.5.0
 	github.com/google/uuid v1.3.0
 	github.com/hprose/hprose-golang/v3 v3.0.0
+	github.com/valyala/fasthttp v1.37.0
 	verif/lib v0.0.0
 )
 
 require (
 	github.com/andot/complexconv v1.0.0 // indirect
+	github.com/andybalholm/brotli v1.0.4 // indirect
 	github.com/json-iterator/go v1.1.12 // indirect
+	github.com/klauspost/compress v1.15.0 // indirect
 	github.com/modern-go/concurrent v0.0.0-20180228061459-e0a39a4cb421 // indirect
 	github.com/modern-go/reflect2 v1.0.2 // indirect
+	github.com/savsgio/gotils v0.0.0-20211223103454-d0aaa54c5899 // indirect
+	github.com/valyala/bytebufferpool v1.0.0 // indirect
 )
 
 replace github.com/hprose/hprose-golang/v3 => /repo
